@@ -122,6 +122,9 @@ def creation(job):
             for g in groups:
                 x = getattr(x, g.lower()) if via == 'traversal' else x.add_group(g)
             return x
+        def new_segment(m, S):
+            # (the MSH of a message exists from construction on: it is THE creation path for that segment, seed C18-e)
+            return m.msh if S == 'MSH' else container(m, 'add').add_segment(S)
         if e[0] == 'R':
             S, F, dt = e[1], e[2], e[4]
             m = fresh()
@@ -135,7 +138,7 @@ def creation(job):
                 bad.append('traversal: %s.%s has datatype %s, profile says %s' % (S, F, got, dt))
             m = fresh()
             try:
-                got = container(m, 'add').add_segment(S).add_field(F).datatype
+                got = new_segment(m, S).add_field(F).datatype
             except Exception as ex:  # noqa
                 if vlib.exc_name(ex) != 'MaxChildLimitReached':      # (a withdrawn field, cardinality (0, 0), cannot be added under STRICT)
                     raise
@@ -145,7 +148,7 @@ def creation(job):
         elif e[0] == 'C' and e[1] == 's':
             S, F, mn, mx = e[2], e[3], e[4], e[5]
             m = fresh()
-            seg = container(m, 'add').add_segment(S)
+            seg = new_segment(m, S)
             n = 0
             exc = None
             for _ in range(max(mx, 0) + 2):
@@ -163,7 +166,7 @@ def creation(job):
                     bad.append('TOLERANT: %d %s under a profile max of %d, validate() does not report it: %s' % (n, F, mx, errs[:5]))
             if mn >= 1:
                 m = fresh()
-                container(m, 'add').add_segment(S)
+                new_segment(m, S)
                 errs = [impl.canon_err(x) for x in m.validate(return_errors=True).errors]
                 if 'missing:%s.%s' % (S, F) not in errs:
                     bad.append('profile makes %s.%s required, validate() of a segment without it does not report it: %s' % (S, F, errs[:5]))
@@ -391,6 +394,16 @@ def run(tier, seed):
                     jobs.append((text, strict, fg, (v, st, [list(e)], 'present')))
                     meta.append({'kind': 'edit', 'version': v, 'structure': st, 'edit': list(e)})
                 cjobs.append((v, st, groups, list(e), rng.random() < .5))
+            # the header: Message(structure, reference=profile) builds its own MSH, which must come from the profile as well
+            mrows = [r for r in lib.SEGMENTS['MSH'][1] if gen.is_seq(r) and len(r) == 4 and gen.well_formed_ref(r[1]) and len(r[1]) == 6 and r[1][2] != 'varies'
+                     and r[0].split('_')[1] in ('3', '4', '5', '6', '8', '13', '14', '15', '16', '17', '18', '19')]
+            if mrows:
+                F = rng.choice(mrows)
+                cdts = sorted(k for k, r_ in lib.DATATYPES_STRUCTS.items() if gen.is_seq(r_) and r_ and k != F[1][2])
+                e = rng.choice([('R', 'MSH', F[0], 'S', rng.choice(cdts)),
+                                ('R', 'MSH', F[0], 'L', rng.choice([d for d in ('ST', 'NM', 'ID', 'DT', 'SI') if d != F[1][2]])),
+                                ('C', 's', 'MSH', F[0], rng.choice([0, 1]), rng.choice([1, 2, 3]))])
+                cjobs.append((v, st, [], list(e), rng.random() < .5))
     res0 = vlib.pmap(pmsg, jobs, chunk=8)
     res = [r.split(' @ ')[0] for r in res0]
     for j, mt, r in zip(jobs, meta, res0):
